@@ -30,7 +30,7 @@ class TracedBytes(bytes):
 
 
 class Node:
-    __slots__ = ("phase", "cls", "name", "ftype", "enter", "exit", "exc", "children", "ipp", "elem", "parent")
+    __slots__ = ("phase", "cls", "name", "ftype", "enter", "exit", "exc", "children", "ipp", "elem", "parent", "notes")
 
     def __init__(self, phase, cls, name, ftype, enter, ipp, elem, parent):
         self.phase = phase
@@ -44,6 +44,7 @@ class Node:
         self.ipp = ipp
         self.elem = elem
         self.parent = parent
+        self.notes = None
 
     def to_json(self):
         return {"phase": self.phase, "cls": self.cls, "name": self.name, "t": self.ftype, "enter": self.enter,
@@ -90,6 +91,16 @@ class Recorder:
         (parent.children if parent else st["roots"]).append(n)
         st["stack"].append(n)
         return n
+
+    def note(self, kind, data):
+        """Attach a control observation (until/when/count evaluation) to the innermost open node."""
+        st = self._st()
+        if not st["active"] or not st["stack"]:
+            return
+        n = st["stack"][-1]
+        if n.notes is None:
+            n.notes = []
+        n.notes.append((kind, data))
 
     def leave(self, n, offset, exc=None):
         if n is None:
@@ -153,6 +164,46 @@ def instrument_class(cls, rec):
                 proto.pack = _wrap_pack(rec, clsname, pname, ftype_of(proto), proto.pack, True)
                 setattr(proto, _INSTRUMENTED, True)
     setattr(cls, _INSTRUMENTED, rec)
+
+
+def instrument_controls(cls, rec):
+    """Wrap the normalised until / when / count callables of Sequence and Optional fields so every
+    evaluation is noted (with the list length seen and the result) on the open field node."""
+    import bisturi.structural_fields as sf
+    if getattr(cls, "_bvf_controls", None) is rec:
+        return
+    for name, field, _, _ in cls.get_fields():
+        if isinstance(field, sf.Sequence):
+            seqname = field.field_name
+            if field.until_condition is not None:
+                field.until_condition = _wrap_ctl(rec, "until", field.until_condition, seqname)
+            if field.when is not None:
+                field.when = _wrap_ctl(rec, "when", field.when, seqname)
+            if field.get_how_many_elements is not None:
+                field.get_how_many_elements = _wrap_ctl(rec, "count", field.get_how_many_elements, seqname)
+        elif isinstance(field, sf.Optional):
+            field.when = _wrap_ctl(rec, "when", field.when, None)
+    cls._bvf_controls = rec
+
+
+def _wrap_ctl(rec, kind, fn, seqname):
+    def ctl(**k):
+        pkt = k.get("pkt")
+        seen = None
+        if seqname is not None and pkt is not None:
+            try:
+                seen = len(getattr(pkt, seqname))
+            except Exception:
+                seen = None
+        try:
+            out = fn(**k)
+        except BaseException as e:
+            rec.note(kind, {"seen": seen, "raised": type(e).__name__, "offset": k.get("offset")})
+            raise
+        rec.note(kind, {"seen": seen, "result": out if isinstance(out, (int, bool)) else bool(out), "offset": k.get("offset")})
+        return out
+    ctl._bvf_inner = fn
+    return ctl
 
 
 def _wrap_unpack(rec, clsname, name, ftype, fn, elem):
